@@ -21,7 +21,7 @@ LEVEL = "proof"
 THEOREMS = ["wf_init", "wf_createRootNode", "wf_createAdd", "wf_addDataPointToNode", "wf_removeDataPointFromNode", "wf_removeDataPointFromOutliers", "wf_getSubtree", "wf_removeSubtree", "wf_addSubtree", "wf_relabelNodes", "wf_update", "wf_fromDict_toDict", "wf_touch", "wf_step", "wf_reachable", "dense_step", "data_conserved", "subtree_is_clade", "labels_partition", "abs_eq_labels", "subtree_move_conserves", "dp_move_conserves",
             "forest_init", "forest_createRootNode", "forest_getSubtree", "forest_removeSubtree", "forest_addSubtree", "forest_fromDict",
             "forest_step", "forest_reachable", "forest_ops_total", "forest_parent_unique_acyclic", "isForestB_iff", "graph_of_forest", "graph_createRootNode",
-            "graph_store_createRootNode", "graph_removeSub", "graph_getSubtree", "graph_addSubtree", "graph_fromDict"]
+            "graph_store_createRootNode", "graph_removeSub", "graph_getSubtree", "graph_addSubtree", "graph_fromDict", "graph_step"]
 BUDGET = {"quick": 100, "thorough": 900}
 SEARCH_BUDGET = 60
 EXPLANATION = (
@@ -39,7 +39,8 @@ EXPLANATION = (
     "forest_reachable for every history; hence unique parent and no cycle), isForestB decides it, and for every shape-changing "
     "structural operation of the store model (takeRoots/cons, findSub/reindex, removeSub, append/graftAt, buildSF) the graph-level "
     "operation applied to graphOf f with the indices the structural operation chose yields the live set and edge multiset of "
-    "graphOf of the structural result (graph_*).  This run: after every op of every history the graph-level op with the real "
+    "graphOf of the structural result (graph_*); graph_step: every Store.step on well-formed stores is simulated by legal "
+    "graph-level operations on the graphs of the stores.  This run: after every op of every history the graph-level op with the real "
     "rustworkx indices injected gives exactly the live set and edge multiset of the real graph and isForestB agrees with the "
     "shape oracle; "
     "model and real Tree agree after every op of every generated history; the direct oracle (one parent, reachable, single "
